@@ -39,10 +39,14 @@ pub fn parse_binary<T: SyntaxParserTrait>(parser: &mut SyntaxParser, operators: 
     }
 
     loop {
+        #[cfg(feature = "verif")]
+        crate::verif::tick("parse_binary");
         let index_backup = parser.get_index();
 
         if let Some(operator) = parser.match_operator(operators) {
             loop {
+                #[cfg(feature = "verif")]
+                crate::verif::tick("parse_binary_operand");
                 let right_expr = T::parse(parser);
                 match right_expr {
                     Ok(SmartCalcAstType::None) => (),
